@@ -140,8 +140,14 @@ def c11_task(shard, tid, seed, n, src_order, dst_order, mode):
             for r in rs:
                 dst.incref(r)
         d_ext = dict(dst_ext)
-        for r in rs:
-            d_ext[abs(r)] = d_ext.get(abs(r), 0) + 1
+        if auto:
+            # one reference per live Function OBJECT (a shared memo may hand
+            # out the same object for two roots)
+            for g in {id(x): x for x in (keep or [])}.values():
+                d_ext[abs(int(g))] = d_ext.get(abs(int(g)), 0) + 1
+        else:
+            for r in rs:
+                d_ext[abs(r)] = d_ext.get(abs(r), 0) + 1
         events.append(ev.done(src, src_ext, dst, d_ext, refs, rs, exc))
         fps.add(('copy', n, tuple(src_order), tuple(order), route))
         # release
